@@ -132,7 +132,7 @@ def judge_history(ctx, b, runs, case, label, nontrivial_key=None, judge_cells=Tr
     aborted = [r['exc'] for r in runs if r['exc']]
     if aborted:
         exc = aborted[0]
-        if exc[0] == 'ValueError' and 'Impossible to compute contact stress' in exc[1]:
+        if exc[0] == 'ValueError' and any(ph in exc[1] for ph in ('Impossible to compute contact stress', 'At least two rules are simultaneously applicable', "Missing 'pwm_min'")):
             ctx.count('documented_run_errors')
             return 'documented-error'
         ctx.violation('C17:run-raised', {'exception': exc, 'config': label}, case)
